@@ -55,6 +55,10 @@ def _collection(lengths, names, grid_ns):
 
 def _history():
     """other collections with other length vectors are alive and were read before the measured access (lookups must not share state)"""
+    import os
+
+    if os.environ.get("VERIF_DEV_NO_EXPLICIT_HISTORY"):  # development switch: exercises the generic history replay of the runner instead
+        return None
     for lengths, idxs in (([1, 0, 3], [1, 3]), ([0, 2, 0, 0, 2], [3]), ([4], [2])):
         other, _ = _collection(lengths, [f"h{i}" for i in range(len(lengths))], [2] * len(lengths))
         for i in idxs:
